@@ -50,8 +50,8 @@ func runC04(c *Ctx) {
 			worker := StaticFunc(&g.Call)
 			c.Check("C04.D", "poll:go-starts-worker", p, g.Pos(), worker != nil && FuncName(worker) == "agent.processOneRequest", "the go statement starts processOneRequest", "the go statement does not start processOneRequest directly")
 			var key ssa.Value
-			if len(g.Call.Args) == 4 {
-				key = g.Call.Args[3]
+			if len(PArgs(&g.Call)) == 4 {
+				key = PArgs(&g.Call)[3]
 			}
 			// guarded by !ok of Get(cache, key)
 			guarded := false
@@ -67,7 +67,7 @@ func runC04(c *Ctx) {
 				if !ok || CalleeName(call.Common()) != lruGet {
 					continue
 				}
-				if !SameValue(call.Call.Args[0], cache) || key == nil || !SameValue(call.Call.Args[1], key) {
+				if !SameValue(PArgs(&call.Call)[0], cache) || key == nil || !SameValue(PArgs(&call.Call)[1], key) {
 					continue
 				}
 				if gd.Succ != trueSucc { // on the not-found side
@@ -85,7 +85,7 @@ func runC04(c *Ctx) {
 					if !IsCall(i, lruAdd) {
 						return false
 					}
-					a := CallOf(i).Args
+					a := PArgs(CallOf(i))
 					return SameValue(a[0], cache) && SameValue(a[1], key)
 				}
 				start := gIf.Block().Succs[gSucc]
@@ -97,7 +97,7 @@ func runC04(c *Ctx) {
 			// the window: a constant, or any expression whose interval has a lower bound ≥ 1000
 			// (a flag clamped from below by a helper)
 			it := &interp{p: p, globals: map[string]iv{}}
-			win, werr := it.evalValue(CallOf(newc).Args[0], 0)
+			win, werr := it.evalValue(PArgs(CallOf(newc))[0], 0)
 			okWin := werr == nil && win.kind == 'i' && win.ilo.Cmp(big.NewInt(1000)) >= 0
 			c.Check("C04.N", "poll:lru-window", p, newc.Pos(), okWin, fmt.Sprintf("lru.New(%s): window ≥ 1000", win), fmt.Sprintf("the dedup window ranges over %s (%v): with up to 1000 distinct IDs outstanding an ID can be evicted and forwarded again", win, werr))
 		}
@@ -292,7 +292,7 @@ func runC04(c *Ctx) {
 			bad := ""
 			for _, r := range Returns(wf) {
 				SliceBack(ReturnValue(r, 0), func(v ssa.Value) bool {
-					if base, fld, ok := FieldLoad(v); ok && len(wf.Params) > 0 && rootIs(base, wf.Params[0]) {
+					if base, fld, ok := FieldLoad(v); ok && len(wf.Params) > 0 && rootIs(base, ParamAt(wf, 0)) {
 						if _, isSlice := v.Type().Underlying().(*types.Slice); isSlice {
 							bad = "field " + fld
 						}
@@ -328,16 +328,16 @@ func checkLRUConfined(c *Ctx, p *Prog, rule string, newc ssa.Instruction) {
 				n := CalleeName(x.Common())
 				if h := syncHelperCallee(x); h != nil && depth < 3 {
 					// handed to a new helper that runs synchronously on the polling goroutine: follow it there
-					for k, a := range x.Call.Args {
+					for k, a := range PArgs(&x.Call) {
 						if a == cache && k < len(h.Params) {
 							use(h.Params[k], depth+1)
 						}
 					}
 					continue
 				}
-				if (n == lruGet || n == lruAdd || n == "(*github.com/golang/groupcache/lru.Cache).Len" || n == "(*github.com/golang/groupcache/lru.Cache).Remove") && x.Call.Args[0] == cache {
+				if (n == lruGet || n == lruAdd || n == "(*github.com/golang/groupcache/lru.Cache).Len" || n == "(*github.com/golang/groupcache/lru.Cache).Remove") && PArgs(&x.Call)[0] == cache {
 					ok := true
-					for _, a := range x.Call.Args[1:] {
+					for _, a := range PArgs(&x.Call)[1:] {
 						if a == cache {
 							ok = false
 						}
